@@ -172,3 +172,20 @@ Definition argv_case (argv : list str) (c_out c_cyborg c_log c_stdout : Z) (pre_
   (observe_cli o (mk_env cls c_stdout false false) pre,
    observe_cli o (mk_env cls c_stdout true false) pre,
    observe_cli o (mk_env cls c_stdout true true) pre).
+
+(* what the harness's in-process reference can know about a raw command line: it reads the file @D without symbols.
+   0 = the parser ends the run (usage error, help, version) | 1 = parsed, the minidump is @D and no symbol source is given |
+   2 = parsed, the minidump is @D, symbol paths / URLs are given (the reports then differ from the reference's) |
+   3 = parsed, the minidump is some other word (a file that does not exist) *)
+Definition argv_info (argv : list str) : Z :=
+  match parse RM.Gen.C20Cli.CLI_ARGS RM.Gen.C20Cli.CLI_GROUP argv with
+  | PParsed acc =>
+      match values_of acc "minidump" with
+      | [d] => if str_eqb d "@D"
+               then (match values_of acc "symbols_path", values_of acc "symbols_path_legacy", values_of acc "symbols_url" with
+                     | [], [], [] => 1 | _, _, _ => 2 end)
+               else 3
+      | _ => 3
+      end
+  | _ => 0
+  end.
